@@ -11,6 +11,7 @@ package verifsim
 // the harness parked something where it must not (exit 2).
 
 import (
+	"encoding/json"
 	"fmt"
 	"os"
 	"runtime"
@@ -25,6 +26,7 @@ var stall struct {
 	timer   *time.Timer
 	writers []func()
 	n       int
+	verdict *[2]string
 }
 
 // StallLimit is the real time one scenario may take.
@@ -34,6 +36,17 @@ var StallLimit = func() time.Duration {
 	}
 	return 150 * time.Second
 }()
+
+// SetStallVerdict: a driver that has already observed a violation which may keep the scenario from ever ending (a retry loop
+// that spins without letting virtual time advance) leaves its verdict here; if the scenario then stalls, it is what the
+// check reports.
+func SetStallVerdict(sig, desc string) {
+	stall.mu.Lock()
+	if stall.verdict == nil {
+		stall.verdict = &[2]string{sig, desc}
+	}
+	stall.mu.Unlock()
+}
 
 // OnStall registers a function that saves a driver's partial report.
 func OnStall(f func()) {
@@ -46,6 +59,7 @@ func OnStall(f func()) {
 func Bubble(t *testing.T, f func(t *testing.T)) {
 	stall.mu.Lock()
 	stall.n++
+	stall.verdict = nil
 	n := stall.n
 	stall.timer = time.AfterFunc(StallLimit, func() { stalled(n) })
 	tm := stall.timer
@@ -58,6 +72,7 @@ func stalled(n int) {
 	stall.mu.Lock()
 	cur := stall.n
 	ws := append([]func(){}, stall.writers...)
+	verdict := stall.verdict
 	stall.mu.Unlock()
 	if cur != n {
 		return // that scenario ended in the meantime
@@ -66,6 +81,10 @@ func stalled(n int) {
 	buf = buf[:runtime.Stack(buf, true)]
 	if dir := os.Getenv("VERIF_OUT"); dir != "" {
 		os.WriteFile(dir+"/stall.txt", append([]byte(fmt.Sprintf("scenario #%d did not end within %v of real time\n\n", n, StallLimit)), buf...), 0o644)
+	}
+	if dir := os.Getenv("VERIF_OUT"); dir != "" && verdict != nil {
+		b, _ := json.Marshal(map[string]string{"sig": verdict[0], "desc": verdict[1]})
+		os.WriteFile(dir+"/stall_verdict.json", b, 0o644)
 	}
 	for _, w := range ws {
 		func() {
